@@ -271,6 +271,18 @@ def gen_history(rng, cfg, pool, text, nops, weights=None, allow_uncrawled_pages=
                     ls.append([pick(), pick()])
             ops.append({"op": "add_links", "links": ls, "as_str": astr([x for p in ls for x in p])})
             m.add_links(ls)
+        elif k == "batch" and rng.random() < 0.12 and any(m.pages.values()):
+            # re-crawl pattern: a page P crawled earlier is met as a target, something new hooks right below
+            # it, and P comes back as a source that links to known pages only
+            P = rng.choice(sorted(p_ for p_, c in m.pages.items() if c))
+            S = pick()
+            below = [P + rng.choice(PATHS) for _ in range(rng.randint(1, 2))]
+            below = [x for x in below if rules_ok(x)]
+            data = [[S, [P] + below], [P, [S] if rng.random() < 0.7 else [S, P]]]
+            if S == P:
+                continue
+            ops.append({"op": "batch", "data": data, "yf": rng.choice([1, 2, 50]), "as_str": False})
+            m.batch(data)
         elif k == "batch":
             data = []
             srcs = set()
